@@ -464,6 +464,112 @@ CORPUS = [
 ]
 
 
+def pending_consumer_cases(ctx, scratch, cases=None):
+    """from_textfile with a consumer that returns an awaitable (the source waits between the records of one read): stop() while a
+    multi-record read is being handed over, start() again later - every terminated record is still delivered exactly once, in file order.
+    Oracle only (the model has no suspension inside a read)."""
+    from streamz import Stream
+    if cases is None:
+        cases = [{"pending_consumer": True, "first": first, "stop_at": k, "delim": d}
+                 for first in (3, 5) for k in (0, 1, first - 1) for d in ("\n", "ab")]
+    for ci, case in enumerate(cases):
+        d, first, stop_at = case["delim"], case["first"], case["stop_at"]
+        path = os.path.join(scratch, "pend%d.txt" % ci)
+        open(path, "w").close()
+        got, recs = [], ["r%d" % i + d for i in range(first + 2)]
+
+        async def main(loop, path=path, got=got, recs=recs, d=d, first=first, stop_at=stop_at):
+            src = Stream.from_textfile(path, poll_interval=0.5, delimiter=d, asynchronous=True, loop=IOLoop.current())
+            pend = []
+
+            def consume(rec):
+                got.append(rec)
+                f = loop.create_future()
+                pend.append(f)
+                return f
+            src.sink(consume)
+            src.start()
+            await vloop.settle(loop)
+            with open(path, "a", newline="") as w:
+                w.write("".join(recs[:first]))
+            await vloop.advance(0.5, loop)
+            await vloop.settle(loop)
+            done = 0
+            stopped = False
+            for _ in range(40):
+                if not stopped and len(got) == stop_at + 1:
+                    src.stop()                       # in the middle of the hand-over of one read
+                    stopped = True
+                    await vloop.settle(loop)
+                if done < len(pend):
+                    pend[done].set_result(None)
+                    done += 1
+                    await vloop.settle(loop)
+                else:
+                    break
+            await vloop.advance(1.0, loop)
+            src.start()
+            await vloop.settle(loop)
+            with open(path, "a", newline="") as w:
+                w.write("".join(recs[first:]))
+            for _ in range(12):
+                await vloop.advance(0.5, loop)
+                await vloop.settle(loop)
+                while done < len(pend):
+                    pend[done].set_result(None)
+                    done += 1
+                    await vloop.settle(loop)
+            src.stop()
+            await vloop.advance(0.5, loop)
+            try:
+                src.file.close()
+            except Exception:       # noqa: BLE001
+                pass
+        vloop.run(main)
+        ctx.case(case, nontrivial=True)
+        ctx.count("textfile:pending-consumer")
+        if got != recs:
+            ctx.failure("textfile:stop-during-read", "from_textfile(delimiter=%r), consumer returning an awaitable: %d records in one read, stop() while record %d was being "
+                        "handled, start() later, two more records: delivered %r, records of the text %r" % (d, first, stop_at, got, recs), case,
+                        oracle="every delimiter-terminated record is emitted exactly once, in file order")
+
+
+def nested_glob_cases(ctx, scratch, cases=None):
+    """filenames() over a glob that spans several directories: every matching path once, each poll's batch in sorted (path) order."""
+    from streamz import Stream
+    if cases is None:
+        cases = [{"nested_glob": [["2024-01/b", "2024-01/z", "2024-02/a", "2024-03/c"], ["2024-02/y", "2024-01/m"]]},
+                 {"nested_glob": [["b/1", "a/2"], ["a/1", "c/0", "b/0"]]}]
+    for ci, case in enumerate(cases):
+        root = os.path.join(scratch, "nest%d" % ci)
+        batches_seen = []
+
+        async def main(loop, case=case, root=root, batches_seen=batches_seen):
+            os.makedirs(root)
+            src = Stream.filenames(os.path.join(root, "*", "*.csv"), poll_interval=0.5, asynchronous=True, loop=IOLoop.current())
+            got = src.sink_to_list()
+            src.start()
+            await vloop.settle(loop)
+            for batch in case["nested_glob"]:
+                before = len(got)
+                for rel in batch:
+                    dd = os.path.join(root, os.path.dirname(rel))
+                    os.makedirs(dd, exist_ok=True)
+                    open(os.path.join(root, rel + ".csv"), "w").close()
+                await vloop.advance(0.5, loop)
+                await vloop.settle(loop)
+                batches_seen.append([os.path.relpath(p_, root)[:-4] for p_ in got[before:]])
+            src.stop()
+            await vloop.advance(0.5, loop)
+        vloop.run(main)
+        ctx.case(case, nontrivial=True)
+        ctx.count("filenames:nested-glob")
+        want = [sorted(b) for b in case["nested_glob"]]
+        if batches_seen != want:
+            ctx.failure("filenames:nested-glob", "filenames('root/*/*.csv'), files created per poll %r: polls emitted %r, sorted new paths are %r"
+                        % (case["nested_glob"], batches_seen, want), case, oracle="every matching path exactly once, in sorted order per poll")
+
+
 def run(ctx):
     ctx.audit()
     ctx.assumptions += [
@@ -486,6 +592,8 @@ def run(ctx):
     try:
         for c, (a, b) in zip(cases, spans):
             check_case(ctx, c, answers[a:b], scratch)
+        pending_consumer_cases(ctx, scratch)
+        nested_glob_cases(ctx, scratch)
     finally:
         shutil.rmtree(scratch, ignore_errors=True)
     ctx.coverage["rule"] = (
@@ -499,7 +607,12 @@ def replay(ctx, data):
     ctx.audit()
     scratch = tempfile.mkdtemp(prefix="verif-c17-")
     try:
-        check_case(ctx, data["case"], None, scratch)
+        if data["case"].get("pending_consumer"):
+            pending_consumer_cases(ctx, scratch, [data["case"]])
+        elif data["case"].get("nested_glob"):
+            nested_glob_cases(ctx, scratch, [data["case"]])
+        else:
+            check_case(ctx, data["case"], None, scratch)
     finally:
         shutil.rmtree(scratch, ignore_errors=True)
     ctx.coverage["rule"] = "replay of one recorded case"
